@@ -5,7 +5,7 @@ Require Import QArith Qcanon List Arith ZArith Lia.
 Import ListNotations.
 Require Import LV.Base.CField LV.Base.QcI LV.Lin.MatL.
 Require Import LV.SelfCal.WeightModel LV.SelfCal.WeightProofs LV.SelfCal.LsqModel LV.SelfCal.LsqProofs
-        LV.SelfCal.AutoProofs.
+        LV.SelfCal.AutoProofs LV.SelfCal.LsqLinkModel LV.SelfCal.LsqLinkProofs.
 
 (* measurements are numbered, the "weight" of measurement m is m + 1 (never the calloc zero) *)
 Definition w_simple := weight_simple nat nat S 0%nat.
@@ -94,4 +94,53 @@ Proof.
       - rewrite lit_one, lit_zero. cbn [dot]. ring.
       - rewrite H2. apply qi_eqb_eq. vm_compute. reflexivity. }
     subst. reflexivity.
+Qed.
+
+(* ---- the link theorem (LsqLinkProofs.exact_data_simple_weights_as_computed) at Q[i] ----
+   two systems (one and three equations); measurement number m has weight 1 / (m + 1); the
+   second system is the example above with its rows multiplied by the weights the model of the
+   code reads for them *)
+Definition lk_wt (m : nat) : Qc := Q2Qc (1 # Pos.of_succ_nat m).
+Definition lk_sys : systems nat := [[4%nat]; [1%nat; 2%nat; 6%nat]].
+Definition lk_rows (s e : nat) : list qi * qi :=
+  match s with
+  | 1%nat => nth e [([mkqi 1 1 0 1; mkqi 0 1 0 1], mkqi 1 1 1 1);
+                    ([mkqi 0 1 0 1; mkqi 1 1 0 1], mkqi 2 1 0 1);
+                    ([mkqi 1 1 0 1; mkqi 1 1 0 1], mkqi 3 1 1 1)] ([], mkqi 0 1 0 1)
+  | _ => ([mkqi 1 1 0 1; mkqi 0 1 0 1], mkqi 1 1 1 1)
+  end.
+Definition lk_ws := weighted_system_simple QIF nat lk_wt lk_rows lk_sys 1.
+
+Lemma lk_wt_nonzero m : lk_wt m <> 0.
+Proof.
+  unfold lk_wt. intro H. apply (f_equal this) in H. unfold Q2Qc, this in H.
+  assert (E : (Qred (1 # Pos.of_succ_nat m) == 0)%Q) by (rewrite H; reflexivity).
+  rewrite Qred_correct in E. unfold Qeq in E. simpl in E. discriminate.
+Qed.
+
+(* all hypotheses of the link theorem hold, and the weights in lk_ws are those of the equations'
+   own measurements (1/2, 1/3, 1/7: the running index skipped the first system's equation) *)
+Example exact_data_link_hypotheses_satisfiable :
+  (forall m, lk_wt m <> 0) /\ (1 < length lk_sys)%nat /\
+  consistent QIF lk_ws ex_x0 /\ injective QIF lk_ws ex_x0 /\
+  map (fun e => fst (fst e)) lk_ws = [Q2Qc (1 # 2); Q2Qc (1 # 3); Q2Qc (1 # 7)].
+Proof.
+  split; [exact lk_wt_nonzero|]. split; [simpl; lia|]. split; [|split].
+  - intros w row b [E|[E|[E|[]]]]; inversion E; subst; apply qi_eqb_eq; vm_compute; reflexivity.
+  - intros y Hlen Hall.
+    destruct y as [|y1 [|y2 [|? ?]]]; try discriminate.
+    pose proof (Hall _ _ _ (or_introl eq_refl)) as H1.
+    pose proof (Hall _ _ _ (or_intror (or_introl eq_refl))) as H2.
+    cbn [lk_rows nth fst snd] in H1, H2.
+    assert (E1 : y1 = mkqi 1 1 1 1).
+    { transitivity (dot QIF [mkqi 1 1 0 1; mkqi 0 1 0 1] [y1; y2]).
+      - rewrite lit_one, lit_zero. cbn [dot]. ring.
+      - rewrite H1. apply qi_eqb_eq. vm_compute. reflexivity. }
+    assert (E2 : y2 = mkqi 2 1 0 1).
+    { transitivity (dot QIF [mkqi 0 1 0 1; mkqi 1 1 0 1] [y1; y2]).
+      - rewrite lit_one, lit_zero. cbn [dot]. ring.
+      - rewrite H2. apply qi_eqb_eq. vm_compute. reflexivity. }
+    subst. reflexivity.
+  - unfold lk_ws, weighted_system_simple. cbn [map seq length nth lk_sys fst snd].
+    repeat f_equal; apply Qc_is_canon; vm_compute; reflexivity.
 Qed.
